@@ -27,8 +27,19 @@ THEOREMS += ['CC.C05_transient_sample', 'CC.C05_periodic_steady', 'CC.C05_superp
 OPEN_STATEMENTS = []
 ASSUMPTIONS = ['binary64 ≈ field arithmetic within 1e-9 relative', 'scipy.signal.lsim (transient samples) is a parameter']
 
-def network_case(ctx, out, desc):
+def permuted_solver(seed):
+    """the library's solver with permuted (valid, non-default) node / source index maps"""
+    from CircuitCalculator.Network.NodalAnalysis.bias_point_analysis import NodalAnalysisBiasPointSolution
+    from CircuitCalculator.Network.NodalAnalysis import label_mapping as lm
+    from props.c01 import permuted_mapper
+    return lambda net: NodalAnalysisBiasPointSolution(network=net, node_mapper=permuted_mapper(lm.default_node_mapper, seed),
+                                                      voltage_source_mapper=permuted_mapper(lm.alphabetic_voltage_source_mapper, seed + 1),
+                                                      current_source_mapper=permuted_mapper(lm.alphabetic_current_source_mapper, seed + 2))
+
+def network_case(ctx, out, desc, mapper_seed=None):
     from CircuitCalculator.Network.NodalAnalysis.bias_point_analysis import nodal_analysis_bias_point_solver
+    if mapper_seed is not None:
+        nodal_analysis_bias_point_solver = permuted_solver(mapper_seed)
     drv = ctx.driver
     out.evaluations += 1
     jnet = gen_net.desc_to_json(desc)
@@ -46,7 +57,7 @@ def network_case(ctx, out, desc):
     out.nontrivial(('net', gen_net.shape(desc)))
     if not all(np.isfinite(list(pot.values()) + list(v.values()) + list(i.values()) + list(p.values()))):
         out.spec_fail(dict(level='network', symptom='non_finite', kinds=sorted({d['kind'] for d in desc['branches']})),
-                      'non-finite reported value on a well-posed network', gen_net.pretty(desc), impl=dict(i=str(i), p=str(p)), desc=desc)
+                      'non-finite reported value on a well-posed network', gen_net.pretty(desc), impl=dict(i=str(i), p=str(p)), desc=desc, mapper_seed=mapper_seed)
         return
     rep = dict(pot={k: core.qc(x) for k, x in pot.items()}, v={k: core.qc(x) for k, x in v.items()},
                i={k: core.qc(x) for k, x in i.items()}, p={k: core.qc(x) for k, x in p.items()})
@@ -54,14 +65,14 @@ def network_case(ctx, out, desc):
     out.traces_validated += 1
     vmax = max([abs(x) for x in v.values()] + [1.0])
     scale = vmax * max([abs(x) for x in i.values()] + [gen_net.ymax_json(jnet) * vmax, 1.0])
-    canon = dict(level='network', kinds=sorted({d['kind'] for d in desc['branches']}))
+    canon = dict(level='network', kinds=sorted({d['kind'] for d in desc['branches']}), custom_index_maps=mapper_seed is not None)
     if abs(core.cfloat(r['tellegen'])) > 1e-8 * scale * len(p):
         out.spec_fail(dict(canon, symptom='tellegen'), 'complex powers do not sum to zero', gen_net.pretty(desc),
-                      impl=dict(p=str(p)), spec=dict(sum=r['tellegen']), desc=desc)
+                      impl=dict(p=str(p)), spec=dict(sum=r['tellegen']), desc=desc, mapper_seed=mapper_seed)
     for k, res in r['presid'].items():
         if abs(core.cfloat(res)) > 1e-10 * scale:
             out.spec_fail(dict(canon, symptom='power_formula'), f'power of {k!r} ≠ V·conj(I)', gen_net.pretty(desc),
-                          impl=dict(p=str(p[k]), v=str(v[k]), i=str(i[k])), desc=desc)
+                          impl=dict(p=str(p[k]), v=str(v[k]), i=str(i[k])), desc=desc, mapper_seed=mapper_seed)
     # sign facts for positive passive elements
     for d in desc['branches']:
         k = d['id']
@@ -69,7 +80,7 @@ def network_case(ctx, out, desc):
             R = d['args']['R']
             if abs(p[k].imag) > 1e-9 * scale or p[k].real < -1e-9 * scale or not core.close(p[k].real, abs(i[k]) ** 2 * R, scale):
                 out.spec_fail(dict(canon, symptom='resistor_power'), f'resistor {k!r}: power is not |I|²R ≥ 0', gen_net.pretty(desc),
-                              impl=dict(p=str(p[k]), i=str(i[k])), desc=desc)
+                              impl=dict(p=str(p[k]), i=str(i[k])), desc=desc, mapper_seed=mapper_seed)
     out.sample(gen_net.pretty(desc))
 
 def circuit_case(ctx, out, comps, w):
@@ -134,9 +145,96 @@ def circuit_case(ctx, out, comps, w):
             pv = np.array(td.get_power(k)(ts), dtype=float); vv = np.array(td.get_voltage(k)(ts), dtype=float); iv = np.array(td.get_current(k)(ts), dtype=float)
             if not np.allclose(pv, vv * iv, rtol=1e-9, atol=1e-9 * scale):
                 out.spec_fail(dict(canon, symptom='instant_power'), f'time-domain power of {k!r} ≠ v(t)·i(t)', gen_circ.pretty(comps), comps=comps, w=w)
+        # Tellegen at every instant (all elements; circuits with linear sources are left to the open C04/C09 direction finding)
+        if not src_lossy and all(gen_circ.wellposed_at(ctx.driver, circ, float(x)) for x in td.w):
+            tot = np.zeros_like(ts); mag = np.zeros_like(ts)
+            for k in ids:
+                pv = np.array(td.get_power(k)(ts), dtype=float); tot += pv; mag += np.abs(pv)
+            out.count('instant_tellegen_checked')
+            if np.any(np.abs(tot) > 1e-8 * np.maximum(mag, 1e-300) * len(ids)) and np.max(mag) > 0:
+                out.spec_fail(dict(canon, symptom='instant_tellegen'), 'instantaneous powers v(t)·i(t) do not sum to zero', gen_circ.pretty(comps),
+                              impl=dict(sum=str(list(tot)), total_magnitude=str(list(mag))), comps=comps, w=w)
     except Exception as e:
         out.count('timedomain_error:' + tag(e))
     out.sample(dict(w=w, circuit=gen_circ.pretty(comps)))
+
+def transient_case(ctx, out, desc, wseed):
+    """transient results: reported power is v·i per sample, and the powers of all elements sum to zero at every sample
+    (C05_transient_sample: Tellegen for every state and input, hence for every integrator)"""
+    import gen_state
+    from CircuitCalculator.Circuit.solution import TransientSolution
+    out.evaluations += 1
+    ok, why = gen_state.nondegenerate(ctx.driver, desc) if ctx.driver is not None else (True, '')
+    if not ok:
+        out.count('transient_degenerate:' + str(why)); return
+    canon = dict(level='transient', shape=str(gen_state.shape(desc)))
+    try:
+        im = gen_state.impl_model(desc)
+        rng = core.Rng(wseed, 'waves')
+        srcs = [c['id'] for c in desc['comps'] if c['kind'] in ('V', 'I')]
+        coef = {s_: (rng.choice([0.5, 1.0, -2.0, 3.0]), rng.choice([0.0, 0.7, 2.0])) for s_ in srcs}
+        wave = {s_: (lambda t, a=a, f=f: a * np.minimum(t, 1.0) + 0.25 * a * np.sin(f * t)) for s_, (a, f) in coef.items()}
+        tin = np.linspace(0.0, 3.0, 97)
+        ts = TransientSolution(im.circuit, tin=tin, input=wave)
+        ids = [c['id'] for c in desc['comps'] if c['kind'] != 'gnd']
+        P = {}; 
+        for k in ids:
+            v = np.asarray(ts.get_voltage(k)[1], dtype=float); i = np.asarray(ts.get_current(k)[1], dtype=float); p = np.asarray(ts.get_power(k)[1], dtype=float)
+            if not (np.all(np.isfinite(v)) and np.all(np.isfinite(i)) and np.all(np.isfinite(p))):
+                out.count('transient_non_finite'); return
+            P[k] = (v, i, p)
+    except Exception as e:
+        out.count('transient_error:' + tag(e)); return
+    out.nontrivial(('transient', gen_state.shape(desc)))
+    scale = max([float(np.max(np.abs(v)) * np.max(np.abs(i))) for v, i, _ in P.values()] + [1e-300])
+    tot = np.zeros_like(tin)
+    for k, (v, i, p) in P.items():
+        if np.max(np.abs(p - v * i)) > 1e-9 * scale:
+            out.spec_fail(dict(canon, symptom='transient_power'), f'transient power of {k!r} ≠ v·i per sample', gen_state.pretty(desc), sdesc=desc, wseed=wseed); return
+        tot += p
+    out.traces_validated += 1
+    if np.max(np.abs(tot)) > 1e-7 * scale * len(P):
+        j = int(np.argmax(np.abs(tot)))
+        out.spec_fail(dict(canon, symptom='transient_tellegen'), f'powers of all elements do not sum to zero at sample {j} (t={tin[j]}): {tot[j]}',
+                      gen_state.pretty(desc), impl=dict(sum=float(tot[j]), scale=scale), sdesc=desc, wseed=wseed)
+
+LOSSY_TRANSIENT_CORPUS = [
+    ('dc_voltage_source', dict(V=8.0, R=2.0)), ('dc_current_source', dict(I=3.0, G=0.5)),
+    ('ac_voltage_source', dict(V=4.0, w=0.0, phi=0.0, R=1.0)),
+]
+
+def lossy_transient_case(ctx, out, kind, args):
+    """transient results of a circuit whose source has an internal resistance / conductance (C05 quantifies over linear
+    sources and over transient results): the powers of all elements — the source counted as delivered power — sum to
+    zero at every sample, and the response to a constant waveform settles to the DC solution"""
+    from CircuitCalculator.Circuit import components as cp
+    from CircuitCalculator.Circuit.circuit import Circuit
+    from CircuitCalculator.Circuit.solution import TransientSolution, DCSolution
+    out.evaluations += 1
+    canon = dict(level='transient', lossy_source=True, source_kind=kind)
+    pretty = dict(source=f'{kind}{args}', rest='R1(1,0)=2 ‖ C1(1,0)=0.5, ground 0')
+    try:
+        src = getattr(cp, kind)(id='S', nodes=('1', '0'), **args)
+        circ = Circuit([src, cp.resistor(id='R1', nodes=('1', '0'), R=2.0), cp.capacitor(id='C1', nodes=('1', '0'), C=0.5), cp.ground(nodes=('0',))])
+        amp = args.get('V', args.get('I'))
+        tin = np.linspace(0.0, 40.0, 801)
+        ts = TransientSolution(circ, tin=tin, input={'S': lambda t: amp * np.ones_like(t)})
+        dc = DCSolution(circ)
+        P = {k: np.asarray(ts.get_power(k)[1], dtype=float) for k in ('S', 'R1', 'C1')}
+        v_end = float(np.asarray(ts.get_potential('1')[1], dtype=float)[-1]); v_dc = float(np.real(dc.get_potential('1')))
+    except Exception as e:
+        out.count('lossy_transient_error:' + tag(e)); return
+    out.nontrivial(('transient_lossy', kind))
+    tot = -P['S'] + P['R1'] + P['C1']          # linear source: delivered power
+    tot2 = P['S'] + P['R1'] + P['C1']
+    mag = np.abs(P['S']) + np.abs(P['R1']) + np.abs(P['C1'])
+    bad = min(float(np.max(np.abs(tot))), float(np.max(np.abs(tot2))))
+    if bad > 1e-6 * max(float(np.max(mag)), 1e-300):
+        out.spec_fail(dict(canon, symptom='transient_tellegen'), f'transient powers do not sum to zero in either counting direction of the source (residual {bad:.4g})',
+                      pretty, impl=dict(residual=bad), lossy=[kind, args]); return
+    if abs(v_end - v_dc) > 1e-6 * max(abs(v_dc), 1.0):
+        out.spec_fail(dict(canon, symptom='settling'), f'constant input settles to {v_end}, the DC solution is {v_dc}', pretty,
+                      impl=dict(settled=v_end, dc=v_dc), lossy=[kind, args])
 
 def _active(c, w, w_res=1e-3):
     if c['kind'].startswith('dc_'): return abs(w - 0.0) <= w_res
@@ -145,16 +243,26 @@ def _active(c, w, w_res=1e-3):
 
 def run(ctx, out):
     out.rule = ('network level: well-posed random networks of C01; circuit level: random RLC(+Z/lamp) circuits on a resistive '
-                'spanning tree with DC/AC/complex sources, analysed at w ∈ {0, 1, 2}; distinct by (kind multiset, shape, w>0)')
+                'spanning tree with DC/AC/complex sources, analysed at w ∈ {0, 1, 2}; distinct by (kind multiset, shape, w>0); transient level: random non-degenerate RLC circuits with ideal sources, ramp + sine inputs, 97 samples')
     rng = ctx.rng('random')
     n1, n2 = (150, 120) if ctx.quick else (4000, 3000)
     for k in range(n1):
         if ctx.time_left() < 20: break
-        network_case(ctx, out, gen_net.random_desc(rng, exact=rng.random() < 0.6, n_nodes=rng.randint(2, 6)))
+        d = gen_net.random_desc(rng, exact=rng.random() < 0.6, n_nodes=rng.randint(2, 6))
+        network_case(ctx, out, d)
+        if k % 3 == 0: network_case(ctx, out, d, mapper_seed=rng.randrange(1 << 16))
     for k in range(n2):
         if ctx.time_left() < 10: break
         circuit_case(ctx, out, gen_circ.random_circuit(rng), rng.choice([0.0, 1.0, 2.0]))
+    for kind, args in LOSSY_TRANSIENT_CORPUS:
+        lossy_transient_case(ctx, out, kind, args)
+    import gen_state
+    for k in range(60 if ctx.quick else 1500):
+        if ctx.time_left() < 10: break
+        transient_case(ctx, out, gen_state.random_desc(rng, safe=True), rng.randrange(1 << 30))
 
 def replay(ctx, out, rp):
-    if 'desc' in rp: network_case(ctx, out, rp['desc'])
+    if 'lossy' in rp: lossy_transient_case(ctx, out, rp['lossy'][0], rp['lossy'][1])
+    elif 'sdesc' in rp: transient_case(ctx, out, rp['sdesc'], rp['wseed'])
+    elif 'desc' in rp: network_case(ctx, out, rp['desc'], rp.get('mapper_seed'))
     else: circuit_case(ctx, out, rp['comps'], rp['w'])
